@@ -590,6 +590,112 @@ def case_rescale(case):
 
 
 # =============================================================================================
+# ------------------------------------------------------------------------------------------
+# (c) integer-valued homogeneous coordinates: the stored data may stay integer, but every geometric
+#     output must be the one of the float64 packaging
+# ------------------------------------------------------------------------------------------
+INT_TIMELIKE = {2: [[1, 0, 0], [2, 1, 0], [3, -1, 1], [5, 2, -3], [-2, 1, 0], [4, 0, 3]],
+                3: [[1, 0, 0, 0], [2, 1, 0, 1], [3, -1, 1, 0], [-5, 2, -3, 1], [4, 0, 3, 2]]}
+INT_POINT_PACKS = ["list_int", "tuple_int", "ndarray_int", "ndarray_int32", "ndarray_float32"]
+INT_OUTPUTS = ["coords/hyperboloid", "coords/klein", "coords/poincare", "coords/halfspace", "distance", "origin_to", "unit_tangent_towards",
+               "point_along", "segment/ideal-endpoints", "segment/circle", "isometry-image", "composite/coords", "composite/distance",
+               "hyperplane/reflection", "spacelike_to", "timelike_to", "tangent-vector/point_along", "tangent-vector/origin_to"]
+
+
+def _ipack(x, how):
+    a = np.array(x)
+    if how == "list_int":
+        return a.tolist()
+    if how == "tuple_int":
+        return tuple(tuple(r) for r in a.tolist()) if a.ndim == 2 else tuple(a.tolist())
+    if how == "ndarray_int":
+        return a.astype(np.int64)
+    if how == "ndarray_int32":
+        return a.astype(np.int32)
+    if how == "ndarray_float32":
+        return a.astype(np.float32)
+    return a.astype(np.float64)
+
+
+def _int_output(H, name, n, i, j, how):
+    """One geometric output computed from integer-valued coordinates packaged `how` (fresh objects each time:
+    several library routines normalise floating data in place)."""
+    T = INT_TIMELIKE[n]
+    pk = lambda x: _ipack(x, how)
+    P = lambda k: H.Point(pk(T[k % len(T)]))
+    proj = lambda d: np.asarray(d, dtype=float) / np.linalg.norm(np.asarray(d, dtype=float), axis=-1, keepdims=True) * np.sign(np.asarray(d, dtype=float)[..., :1] + 1e-300)
+    e1 = [0, 1] + [0] * (n - 1)
+    e0 = [1] + [0] * n
+    normal = [1, 2] + [1] * (n - 1)
+    if name.startswith("coords/"):
+        return np.asarray(P(i).coords(name.split("/")[1]), dtype=float)
+    if name == "distance":
+        return np.asarray(P(i).distance(P(j)), dtype=float)
+    if name == "origin_to":
+        return np.asarray(P(i).origin_to().matrix, dtype=float)
+    if name == "unit_tangent_towards":
+        return proj(np.asarray(P(i).unit_tangent_towards(P(j)).proj_data).reshape(-1))
+    if name == "point_along":
+        return np.asarray(P(i).unit_tangent_towards(P(j)).point_along(0.5).coords("klein"), dtype=float)
+    if name == "segment/ideal-endpoints":
+        e = np.asarray(H.Segment(P(i), P(j)).ideal_endpoint_coords("klein"), dtype=float)
+        return e[np.lexsort(e.T[::-1])]
+    if name == "segment/circle":
+        if n != 2:
+            return np.concatenate([np.ravel(x) for x in H.Segment(P(i), P(j)).sphere_parameters()])
+        return np.concatenate([np.ravel(x) for x in H.Segment(P(i), P(j)).circle_parameters(degrees=False)])
+    if name == "isometry-image":
+        return np.asarray((P(j).origin_to() @ P(i)).coords("klein"), dtype=float)
+    if name == "composite/coords":
+        return np.asarray(H.Point(pk(T)).coords("poincare"), dtype=float)
+    if name == "composite/distance":
+        return np.asarray(H.Point(pk(T[:2])).distance(H.Point(pk(T[2:4]))), dtype=float)
+    if name == "hyperplane/reflection":
+        return np.asarray(H.Hyperplane(pk(normal if i % 2 else e1)).reflection_across().matrix, dtype=float)
+    if name == "spacelike_to":
+        return np.asarray(H.spacelike_to(np.asarray(pk(normal))).matrix, dtype=float)
+    if name == "timelike_to":
+        return np.asarray(H.timelike_to(np.asarray(pk(T[i % len(T)]))).matrix, dtype=float)
+    if name == "tangent-vector/point_along":
+        return np.asarray(H.TangentVector(pk(e0), pk(e1)).point_along(0.5 + 0.25 * i).coords("klein"), dtype=float)
+    if name == "tangent-vector/origin_to":
+        return np.asarray(H.TangentVector(pk([e0, e1])).origin_to().matrix, dtype=float)
+    raise ValueError(name)
+
+
+def case_intpoints(case):
+    from geometry_tools import hyperbolic as H
+    n, name, i, j, how = case["n"], case["out"], case["i"], case["j"], case["pack"]
+    where = "%s from integer-valued coordinates of H^%d (points %d, %d) packaged as %s" % (name, n, i, j, how)
+    ref = _int_output(H, name, n, i, j, "ndarray_float64")
+    try:
+        got = _int_output(H, name, n, i, j, how)
+    except Exception as e:
+        return {"v": [{"key": "integer-points/raises/%s/%s" % (name, "float32" if how.endswith("float32") else "integer"),
+                       "msg": "%s raises %s: %s" % (where, type(e).__name__, str(e)[:160])}], "t": 2, "o": "EXC"}
+    tol = TOL32 * 10 if how.endswith("float32") else TOL
+    v = []
+    if got.shape != ref.shape:
+        v.append({"key": "integer-points/shape/%s" % name, "msg": "%s: shape %r, float64 packaging %r" % (where, got.shape, ref.shape)})
+    elif (np.any(np.isfinite(got) != np.isfinite(ref))
+          or not float(np.max(np.abs(np.where(np.isfinite(ref), got - ref, 0.0)), initial=0.0)) <= tol * (1 + float(np.max(np.abs(ref[np.isfinite(ref)]), initial=0.0)))):
+        # (a segment through the origin is a straight line of the model: NaN circle in every packaging)
+        v.append({"key": "integer-points/value/%s/%s" % (name, "float32" if how.endswith("float32") else "integer"),
+                  "msg": "%s: %r, float64 packaging gives %r" % (where, got.tolist(), ref.tolist())})
+    return {"v": v, "t": 2, "o": (name, how, got.shape), "nt": True}
+
+
+def intpoint_cases():
+    for n in (2, 3):
+        N = len(INT_TIMELIKE[n])
+        for out in INT_OUTPUTS:
+            for i in range(N):
+                for j in ([(i + 1) % N, (i + 2) % N] if out in ("distance", "unit_tangent_towards", "point_along", "segment/ideal-endpoints",
+                                                                "segment/circle", "isometry-image") else [0]):
+                    for how in INT_POINT_PACKS:
+                        yield {"n": n, "out": out, "i": i, "j": j, "pack": how}
+
+
 def run(ctx):
     q = ctx.quick
     ctx.rule = ("(a) every (entry point, value, packaging) triple of the tables in checks/c12.py; non-trivial = packaging "
@@ -605,6 +711,9 @@ def run(ctx):
     ctx.product("packaging", "checks.c12:case_packaging", list(packaging_cases()),
                 domains={"entries": len(_entries()), "scalar packagings": SCALAR_PACKS + INT_PACKS, "array packagings": ARRAY_PACKS + ARRAY_INT_PACKS}, chunk=16)
     ctx.product("doc-snippets", "checks.c12:case_snippet", [{"i": i} for i in range(7)], domains={"snippets": 7}, chunk=1)
+    ctx.product("integer-points", "checks.c12:case_intpoints", list(intpoint_cases()),
+                domains={"coordinates": INT_TIMELIKE, "packagings": INT_POINT_PACKS, "outputs": INT_OUTPUTS,
+                         "oracle": "the same output from the float64 ndarray packaging (itself decided by C01, C13, C14, C15)"}, chunk=16)
     dims = (2, 3, 4) if q else (1, 2, 3, 4, 5)
     cases = []
     for c in rescale_cases(dims, ctx.seed, q):
